@@ -728,8 +728,9 @@ class SyncOps:
 
 
 def timeout_verdicts(prog, hist, kinds=("gwait", "swait", "bwait")):
-    """S3: a timed wait may return non-zero only after its full timeout has elapsed on the clock the deadline was expressed in;
-    elapsed is measured from a clock read taken BEFORE the deadline was computed to one taken AFTER the call returned"""
+    """S3: a timed wait may return non-zero only after its full timeout has elapsed. Elapsed is measured from clock reads taken BEFORE
+    the deadline was computed to reads taken AFTER the call returned, on one CPU, and is the largest of the CLOCK_MONOTONIC, CLOCK_REALTIME and
+    CLOCK_BOOTTIME differences: a step of one clock by the environment is not an early return, a wrongly computed timeout is short on all three"""
     out = []
     ev = hist.ev
     rets = {}
